@@ -113,6 +113,9 @@ func genC12(r *kernel.Rand) *kernel.Scenario {
 		// the probes start with a new channel opening between two honest clients
 		c["probe_open"] = 1
 	}
+	if c["virtual"] > 0 && c["vsettle_gap_ms"] == 0 && r.Bool(0.2) {
+		c["vsettle_sendfail"] = int64(1 + r.Intn(2))
+	}
 	n := r.Range(1, 6)
 	for i := 0; i < n; i++ {
 		k := c12Kinds[r.Weighted(w)]
@@ -201,7 +204,25 @@ func execC12(tt *testing.T, sc *kernel.Scenario, trace bool) *kernel.Result {
 		}
 		s.Count("probe.hostile_messages", int64(sent))
 		<-holdDone
-		if sc.Cfg("vsettle_gap_ms", 0) > 0 && a.virt != nil && !s.Failed() {
+		if f := sc.Cfg("vsettle_sendfail", 0); f > 0 && a.virt != nil && !s.Failed() {
+			// the honest virtual channel is settled while the hub's connection to
+			// one of the two parties has a transient fault: its acceptance of that
+			// party's settlement proposal cannot be sent
+			victim, done := []string{"A", "B"}[(f-1)&1], false
+			t.w.Bus.FailSend = func(from, to string, e *wire.Envelope) bool {
+				if _, ok := e.Msg.(*client.ChannelUpdateAccMsg); ok && from == "H" && to == victim && !done {
+					done = true
+					return true
+				}
+				return false
+			}
+			errA, errB := t.settleVirtual(len(sc.Steps), 0, 1)
+			t.w.Bus.FailSend = nil
+			if done {
+				s.Count("fault.virtual_settlement_acceptance_not_sent", 1)
+			}
+			s.Note("virtual settlement with a send fault towards %s: errA=%v errB=%v", victim, errA, errB)
+		} else if sc.Cfg("vsettle_gap_ms", 0) > 0 && a.virt != nil && !s.Failed() {
 			// the honest virtual channel is finalised and settled, the two parties'
 			// settlement proposals reaching the hub more than its 10 s patience apart
 			// (pure timing; whether the settlement succeeds is not judged here, the
